@@ -55,6 +55,9 @@ CLAIMS = {
  "C12": ("lockset rule on the memory store (every access to the session map and session fields under its mutex), writer/reader/scan-struct table agreement for the Redis hash fields (constants, package tables, struct tags), stale-member HDEL rule, no-replica-local-state write scan, backend-key provenance in both stores",
          "Decides necessary conditions of `both stores implement one abstract session map`: single-operation atomicity of the memory store by lock discipline, agreement of what the Redis store writes, reads, scans, clears and removes, absence of replica-local state, keys derived only from the session-id parameter, write-once creation time. Equivalence with the abstract map over all operation sequences and linearizability are not decided.",
          "go/ssa model; Redis command semantics; struct tags drive go-redis Scan"),
+ "C14": ("interprocedural backward taint (data-dependence through SSA operands, memory of local objects, parameters → call sites, own callees' returns) from every browser-bound sink to the declared secret sources, with the S256 challenge hash as the only sanitiser",
+         "Decides that no denial/redirect body, header, status message or server deny message data-depends on the client secret, a PKCE verifier, an ID/access/refresh token, an IdP response body or an error value, and that the OK writer's headers carry no secret beyond the ID and access token. Over-approximate (any tainted operand taints the result); encodings inside libraries and log output are not examined.",
+         "go/ssa model; session id, state, nonce and S256 challenge are by definition not secrets here"),
 }
 
 NOT_YET = "check under construction in this round; see DESIGN.md section 4 for the planned static rules"
